@@ -5,6 +5,7 @@ from framework import kernel, Finding, fn_paths
 from mirsym.machine import *
 from mirsym.mirread import Unsupported
 from . import lexcommon as LC
+from mirsym import models
 
 
 # ---------------------------------------------------------------------------------------------- K1a keyword case
@@ -252,4 +253,76 @@ def _replay_endif(text, seq):
     return rp
 
 
-KERNELS = [k1a, k1b, k2]
+
+# ---------------------------------------------------------------------------------------------- K4 case-insensitive names: Eq / Hash consistency of Id and Type
+@kernel('K4 dsl.name_eq_hash_consistency')
+def k4(ctx, kr):
+    P = ctx.program(['ironplc-dsl'])
+    NB = 2
+    def hash_stub(M, fr, callee, a):
+        v = M.deref(a[0]); h = M.deref(a[1])
+        if isinstance(v, Str): h.f[0].items.append(('str', list(v.b)))
+        else: h.f[0].items.append(('val', v))
+        return UNIT
+    for tyname in ('Id', 'Type'):
+        k_from = P.impl_all.get((tyname, 'From<&str>', 'from')) or P.impl_all.get((tyname, None, 'from'))
+        k_eq = P.impl_all.get((tyname, 'PartialEq', 'eq')); k_hash = P.impl_all.get((tyname, 'Hash', 'hash'))
+        if not (k_from and k_hash): kr.inconc('%s::from / hash not found' % tyname); continue
+        M = Machine(P, stubs={r'^<std::string::String as std::hash::Hash>::hash': hash_stub, r'^<str as std::hash::Hash>::hash': hash_stub})
+        st = {}
+        def entry(M):
+            bs = [[M.fresh_bv('c', 8) for _ in range(NB)] for _ in range(2)]
+            for row in bs:
+                for b in row: M.assume(z3.Or(z3.And(z3.UGE(b, 65), z3.ULE(b, 90)), z3.And(z3.UGE(b, 97), z3.ULE(b, 122))))
+            st['bs'] = bs
+            vals = [M.call_fn(k_from[0], [Ref(Cell(Str(list(row))))]) for row in bs]
+            hs = []
+            for v in vals:
+                h = Cell(Agg('RecHasher', [VecV()])); M.call_fn(k_hash[0], [Ref(Cell(v)), Ref(h)]); hs.append(h.v.f[0].items)
+            if k_eq: eq = M.call_fn(k_eq[0], [Ref(Cell(vals[0])), Ref(Cell(vals[1]))])
+            else: eq = models.val_eq(M, None, vals[0], vals[1])
+            return eq, hs
+        def on_path(M, pr):
+            kr.paths += 1
+            if pr.inconclusive: kr.inconc(pr.inconclusive); return
+            kr.nontrivial += 1
+            if pr.panic: kr.findings.append(Finding('C08/K4/%s/panic' % tyname, pr.panic.msg[:60], {}, None)); return
+            eq, hs = pr.result; bs = st['bs']
+            low = lambda b: z3.If(z3.ULE(b, 90), b + 32, b)
+            ref_eq = z3.And([low(x) == low(y) for x, y in zip(bs[0], bs[1])])
+            def hash_same():
+                if len(hs[0]) != len(hs[1]): return z3.BoolVal(False)
+                cs = []
+                for (k1, v1), (k2, v2) in zip(hs[0], hs[1]):
+                    if k1 != k2 or k1 != 'str' or len(v1) != len(v2): return z3.BoolVal(False)
+                    cs += [tobv(x, 8) == tobv(y, 8) for x, y in zip(v1, v2)]
+                return z3.And(cs) if cs else z3.BoolVal(True)
+            s = z3.Solver(); s.add(*pr.pc)
+            def wit(role, what, cond):
+                s.push(); s.add(cond); kr.queries += 1
+                if s.check() == z3.sat:
+                    m = s.model(); a_, b_ = [''.join(chr(m.eval(x, True).as_long()) for x in row) for row in bs]
+                    if not any(f.role == role for f in kr.findings):
+                        kr.findings.append(Finding(role, '%s: %s (names %r and %r)' % (tyname, what, a_, b_), {'a': a_, 'b': b_}, replay=_replay_case_names(a_, b_)))
+                s.pop()
+            wit('C08/K4/%s/equality-not-case-insensitive' % tyname, 'two spellings that differ only in letter case do not compare equal, or different names compare equal', tobool(eq) != ref_eq)
+            wit('C08/K4/%s/eq-hash-inconsistent' % tyname, 'two equal names hash differently, so hash tables keyed by them miss', z3.And(tobool(eq), z3.Not(hash_same())))
+            if len(kr.samples) < 2: kr.samples.append({'type': tyname, 'hash_writes': [len(h) for h in hs]})
+        M.explore(entry, on_path)
+        kr.queries += M.stats['smt']; kr.functions += fn_paths(P, M.encoded); kr.models = sorted(set(kr.models) | M.models_used)
+    kr.stubs = ['<String as Hash>::hash records the bytes fed to the hasher']
+    kr.bounds = 'two names of %d symbolic ASCII letters each' % NB
+    kr.exhaustive = True
+
+def _replay_case_names(a, b):
+    def rp(ctx):
+        # a function block declared with one spelling and used with the other must analyse like the consistently spelled program
+        mk = lambda decl, use: 'FUNCTION_BLOCK %s\nVAR\n  v : INT;\nEND_VAR\nEND_FUNCTION_BLOCK\nFUNCTION_BLOCK user\nVAR\n  inst : %s;\nEND_VAR\nEND_FUNCTION_BLOCK\n' % (decl, use)
+        d, u = 'x' + a, 'x' + b
+        r1 = ctx.replay({'cmd': 'analyze', 'sources': [mk(d, d)]}); r2 = ctx.replay({'cmd': 'analyze', 'sources': [mk(d, u)]})
+        c1 = sorted(x['code'] for x in r1.get('diagnostics', [])); c2 = sorted(x['code'] for x in r2.get('diagnostics', []))
+        same_name = d.lower() == u.lower()
+        return same_name and c1 != c2, {'consistent_spelling_codes': c1, 'respelled_codes': c2, 'declared': d, 'used': u}
+    return rp
+
+KERNELS = [k1a, k1b, k2, k4]
